@@ -35,3 +35,22 @@ pub fn yield_point(site: &'static str) {
         h(site);
     }
 }
+
+/// A peer connection the node wants to open: (peer address, queue of lines to send to the peer,
+/// this node's address, whether this node connects as the primary).
+pub type LinkHook =
+    Arc<dyn Fn(String, futures::channel::mpsc::Receiver<String>, String, bool) + Send + Sync>;
+
+lazy_static::lazy_static! {
+    static ref LINK_HOOK: RwLock<Option<LinkHook>> = RwLock::new(None);
+}
+
+/// Install (or remove) the callback that replaces the TCP connection of `start_replication`.
+/// The callback owns the outgoing queue; when it returns the connection counts as closed.
+pub fn set_link_hook(hook: Option<LinkHook>) {
+    *LINK_HOOK.write().unwrap() = hook;
+}
+
+pub fn link_hook() -> Option<LinkHook> {
+    LINK_HOOK.read().unwrap().clone()
+}
